@@ -349,6 +349,15 @@ theorem unmarshal_marshal (M : MsgSpec) (vs : List Val) (hS : SchemaOk M.fields)
   rw [wire_roundtrip _ (encFlat_fieldOk M.fields vs hS.2 hc)]
   simp [unmarshalF_marshalF M vs hS hc hwf]
 
+/-- normalising form of `unmarshal_marshal`: whatever the validation turns the values into is what
+    comes back -/
+theorem unmarshal_marshal_post' (M : MsgSpec) (vs vs' : List Val) (hS : SchemaOk M.fields)
+    (hc : Canon M.fields vs) (hp : M.post vs = some vs') :
+    M.unmarshal (M.marshal vs) = some (M.marshal vs') := by
+  unfold MsgSpec.unmarshal MsgSpec.marshal MsgSpec.unmarshalF
+  rw [wire_roundtrip _ (encFlat_fieldOk M.fields vs hS.2 hc)]
+  simp [flat_roundtrip M.fields vs hS hc, hp]
+
 /-- an accepted input is the marshalling of a value list the validation produced -/
 theorem unmarshal_ok_post (M : MsgSpec) (bs out : Bytes) (h : M.unmarshal bs = some out) :
     ∃ fs vs vs', parseMsg bs = some fs ∧ decFlat M.fields fs = some vs ∧
